@@ -7,7 +7,9 @@ import (
 	"fmt"
 	"io"
 	"net/http"
+	"net/http/httptrace"
 	urlpkg "net/url"
+	"sync/atomic"
 	"time"
 
 	"github.com/IrineSistiana/mosproxy/internal/dnsmsg"
@@ -128,13 +130,32 @@ func (u *DoHTransport) ExchangeContext(ctx context.Context, q []byte) (*dnsmsg.M
 }
 
 func (u *DoHTransport) exchange(ctx context.Context, rawQuery string) (*dnsmsg.Msg, error) {
+	// A request that failed on a reused connection (e.g. the server has closed
+	// it while it was idle) is sent again. The http2 and http3 transports
+	// don't do that by themselves.
+	retry := 0
+	for {
+		var reused atomic.Bool
+		trace := &httptrace.ClientTrace{GotConn: func(info httptrace.GotConnInfo) { reused.Store(info.Reused) }}
+		r, connErr, err := u.exchangeOnce(httptrace.WithClientTrace(ctx, trace), rawQuery)
+		if connErr && (reused.Load() || isQuicConnErr(err)) && retry < 3 && ctx.Err() == nil {
+			retry++
+			continue
+		}
+		return r, err
+	}
+}
+
+// connErr reports whether err is an error of the connection. (Not of the
+// response that was received.)
+func (u *DoHTransport) exchangeOnce(ctx context.Context, rawQuery string) (_ *dnsmsg.Msg, connErr bool, err error) {
 	req := u.reqTemplate.WithContext(ctx)
 	req.URL = new(urlpkg.URL)
 	*req.URL = *u.urlTemplate
 	req.URL.RawQuery = rawQuery
 	resp, err := u.rt.RoundTrip(req)
 	if err != nil {
-		return nil, fmt.Errorf("http request failed: %w", err)
+		return nil, true, fmt.Errorf("http request failed: %w", err)
 	}
 	defer resp.Body.Close()
 
@@ -142,16 +163,17 @@ func (u *DoHTransport) exchange(ctx context.Context, rawQuery string) (*dnsmsg.M
 	if resp.StatusCode != http.StatusOK {
 		body1k, _ := io.ReadAll(io.LimitReader(resp.Body, 1024))
 		if body1k != nil {
-			return nil, fmt.Errorf("bad http status codes %d with body [%s]", resp.StatusCode, body1k)
+			return nil, false, fmt.Errorf("bad http status codes %d with body [%s]", resp.StatusCode, body1k)
 		}
-		return nil, fmt.Errorf("bad http status codes %d", resp.StatusCode)
+		return nil, false, fmt.Errorf("bad http status codes %d", resp.StatusCode)
 	}
 
 	bb := bufPool4k.Get()
 	defer bufPool4k.Release(bb)
 	_, err = bb.ReadFrom(io.LimitReader(resp.Body, 65535))
 	if err != nil {
-		return nil, fmt.Errorf("failed to read http body: %w", err)
+		return nil, true, fmt.Errorf("failed to read http body: %w", err)
 	}
-	return dnsmsg.UnpackMsg(bb.Bytes())
+	m, err := dnsmsg.UnpackMsg(bb.Bytes())
+	return m, false, err
 }
